@@ -41,6 +41,19 @@ def ref_bonds(elements, pos, cell, radii, nonmetals):
     out, via = set(), set()
     margin = np.inf
     offs = IMG125.dot(cell) if cell is not None else np.zeros((1, 3))
+    if n > 40:
+        # the same rule, one row of the distance table at a time
+        pos = np.asarray(pos, float)
+        for i in range(n - 1):
+            dm = np.linalg.norm(pos[i + 1:][None, :, :] - pos[i] + offs[:, None, :], axis=2).min(axis=0)
+            d0 = np.linalg.norm(pos[i + 1:] - pos[i], axis=1)
+            cs = np.array([cutoff(elements[i], elements[j], radii, nonmetals) for j in range(i + 1, n)])
+            margin = min(margin, float(np.abs(dm - cs).min()))
+            for k in np.nonzero(dm < cs)[0]:
+                out.add((i, i + 1 + int(k)))
+                if cell is not None and d0[k] >= cs[k]:
+                    via.add((i, i + 1 + int(k)))
+        return out, via, margin
     for i in range(n):
         for j in range(i + 1, n):
             d = np.linalg.norm(pos[j] - pos[i] + offs, axis=1)
@@ -104,6 +117,9 @@ def cases(tier, seed):
     # one site listed on two opposite faces of a triclinic cell (fractional 0 and 1): the two entries coincide through a periodic image
     for j in range(80 if tier == "quick" else 6000):
         out.append({"kind": "random", "s": int(rng.integers(1 << 30)), "cell": "tri", "coincide": True})
+    # structures of the size of a real linker or small framework (65 .. a few hundred atoms), at the density of a molecular solid
+    for j in range(9 if tier == "quick" else 400):
+        out.append({"kind": "random", "s": int(rng.integers(1 << 30)), "cell": [None, "ortho", "tri"][j % 3], "large": 140 if tier == "quick" else 420})
     return out
 
 
@@ -244,6 +260,12 @@ def run_case(case, ctx):
         return
     kind = case["cell"]
     n = int(rng.integers(2, 15))
+    side = None
+    if case.get("large"):
+        n = int(rng.integers(65, case["large"]))
+        side = (n * float(rng.uniform(9.0, 22.0))) ** (1.0 / 3.0)
+        st.count("detections_in_structures_of_more_than_64_atoms")
+        st.seen("large_size", n)
     els_all = list(radii)
     elements = [els_all[int(i)] for i in rng.integers(0, len(els_all), n)]
     if rng.integers(2):
@@ -252,9 +274,9 @@ def run_case(case, ctx):
     int_cell = 0
     if kind is None:
         cell = None
-        pos = rng.uniform(-4, 4, (n, 3))
+        pos = rng.uniform(-4, 4, (n, 3)) if side is None else rng.uniform(-side / 2, side / 2, (n, 3))
     else:
-        cell = rand_cell(rng, kind, 6.2, 11.0)
+        cell = rand_cell(rng, kind, 6.2, 11.0) if side is None else rand_cell(rng, kind, 0.9 * side, 1.15 * side)
         if case["s"] % 3 == 0:
             cell = np.round(cell)            # integer-valued cell, handed over with an integer dtype
             int_cell = 1 + case["s"] % 2
@@ -304,6 +326,8 @@ def requirements(stats, tier):
         need.append("structures with two atoms at distance exactly zero: %d" % stats.get("structures_with_two_atoms_at_distance_zero"))
     if stats.get("integer_cells") < 10:
         need.append("cells given with integer entries: %d" % stats.get("integer_cells"))
+    if stats.get("detections_in_structures_of_more_than_64_atoms") < (6 if tier == "quick" else 300):
+        need.append("structures of more than 64 atoms: %d" % stats.get("detections_in_structures_of_more_than_64_atoms"))
     if stats.nseen("random_cell_class") < 3:
         need.append("random structures did not cover no-cell/ortho/tri")
     return need
